@@ -8,7 +8,9 @@ WT=/tmp/wt/sweep-$$; VS=/tmp/vsweep-$$
 git -C /repo worktree add -q --detach "$WT" HEAD || exit 9
 mkdir -p "$VS" && rsync -a --exclude .git --exclude .work --exclude replay /verif/ "$VS"/
 trap 'git -C /repo worktree remove --force "$WT" >/dev/null 2>&1; rm -rf "$VS"' EXIT
-for d in /verif/seeded/$GLOB/ /verif/mutants/$GLOB.diff; do
+LIST="/verif/seeded/$GLOB/ /verif/mutants/$GLOB.diff"
+case "$GLOB" in /*) LIST="$GLOB/";; esac   # an absolute path: a seed directory that is not kept (yet)
+for d in $LIST; do
   [ -e "$d" ] || continue
   if [ -d "$d" ]; then patch="$d/patch.diff"; name=$(basename "$d"); else patch="$d"; name="mutant:$(basename "$d" .diff)"; fi
   prop=$(basename "$d" | cut -c1-3); [ -n "$PROPOVR" ] && prop="$PROPOVR"
